@@ -185,7 +185,7 @@ def p2(ctx):
             yield Ob(key_of("C01-P2", b.path, "owned-end"), good, "memory_size = size iff the tail was split off (else the whole data size): owned extent ends where the remainder begins", ctx.loc(r))
 
 
-@rule("C01-D2", "C01", 12, "nobody rewrites a handle's Meta: the four Meta fields are assigned only in Meta::{new, null, align_to, align_bytes_to} and the pop bodies; "
+@rule("C01-D2", "C01", 8, "nobody rewrites a handle's Meta: the four Meta fields are assigned only in Meta::{new, null, align_to, align_bytes_to} and the pop bodies; "
       "the `allocated` field of a handle is set only by constructor aggregates")
 def d2(ctx):
     allowed = re.compile(r"^(Meta::(new|null|align_to|align_bytes_to)|(sync|unsync)::Arena::alloc_slow_path_(optimistic|pessimistic))$")
@@ -207,7 +207,8 @@ def d2(ctx):
             for si, st in enumerate(b.blocks[bi]["stmts"]):
                 rv = st["rv"]
                 if rv["k"] == "agg" and isinstance(rv["kind"], dict) and rv["kind"].get("adt") == "Meta":
-                    ok = b.path in ("Meta::new", "Meta::null")
+                    # (the pop bodies may write the fields of the Meta they hand out one by one or all at once)
+                    ok = b.path in ("Meta::new", "Meta::null") or bool(re.match(r"^(sync|unsync)::Arena::alloc_slow_path_(optimistic|pessimistic)$", b.path))
                     yield Ob(key_of("C01-D2", b.path, "meta-aggregate"), ok, "Meta aggregate built in %s" % b.path, b.loc(bi, si))
 
 
